@@ -74,9 +74,64 @@ def check_case(c, p, k, u, code, prob, moved, newx, newlp):
 GRID = [-math.inf, -3.0e38, -1.0e30, -50.0, -1.0, -1e-30, -0.0, 0.0, 1e-45, 1e-30, 0.5, 1.0, 88.0, 1.0e30, 3.0e38, math.inf, math.nan]
 
 
+def kernel_cases(col, corrections=(float("nan"), 0.0, -0.5, float("-inf"))):
+    """the kernels built on mh_step report what mh_step decides: user-proposal kernel with a given log-correction (NaN included),
+    random-walk and IWLS kernels with a target that is NaN / -inf beyond a threshold"""
+    import liesel.goose as gs
+    from liesel.goose.epoch import EpochConfig, EpochType
+
+    ks, us = keys_pool()
+    for etype in (EpochType.POSTERIOR, EpochType.FAST_ADAPTATION):
+        ep = EpochConfig(etype, 10, 1, None).to_state(1, 0)
+        for corr in corrections:
+            model = DictInterface(lambda s_: -0.5 * jnp.sum(s_["x"] ** 2))
+            k = gs.MHKernel(["x"], lambda key, ms, step, corr=corr: gs.MHProposal({"x": ms["x"] * 0.5}, jnp.float32(corr)))
+            k.set_model(model)
+            ms = {"x": jnp.array([2.0, -1.0], jnp.float32)}
+            for i in (0, 1, 2):
+                st = k.init_state(ks[i], ms)
+                for tr in (k.transition, jax.jit(k.transition)):
+                    o = tr(ks[i], st, ms, ep)
+                    sub = jax.random.split(ks[i])[1]
+                    u = float(jax.random.uniform(sub))
+                    cur, prop = np.float32(-2.5), np.float32(-0.625)
+                    newx = np.asarray(o.model_state["x"])
+                    moved_state = not np.array_equal(newx, np.asarray(ms["x"]))
+                    r = np.float32(prop - cur) + np.float32(corr)
+                    want_code = 90 if math.isnan(float(r)) else 0
+                    want_p = 0.0 if math.isnan(float(r)) else min(1.0, math.exp(float(r))) if float(r) > -100 else 0.0
+                    ok = int(o.info.error_code) == want_code and abs(float(o.info.acceptance_prob) - want_p) < 1e-6 and bool(o.info.position_moved) == moved_state \
+                        and (not moved_state or u < want_p) and (want_p < 1.0 or moved_state) and (want_p > 0.0 or not moved_state)
+                    col.add(None if ok else {"sig": "native::kernel::mh_kernel_reports_mh_step", "what": f"MHKernel with log-correction {corr}: error_code={int(o.info.error_code)} "
+                                             f"acceptance_prob={float(o.info.acceptance_prob)} moved={bool(o.info.position_moved)}; expected code {want_code}, probability {want_p}",
+                                             "input": {"kernel": "MHKernel", "log_correction": repr(corr), "epoch": etype.name, "key_index": i}})
+        # RW / IWLS: the target is NaN for x > 3: a proposal landing there must be reported with code 90 and rejected
+        for kind in ("RW", "IWLS"):
+            model = DictInterface(lambda s_: jnp.where(s_["x"] > 3.0, jnp.nan, -0.5 * s_["x"] ** 2))
+            k = gs.RWKernel(["x"], initial_step_size=5.0) if kind == "RW" else gs.IWLSKernel(["x"], initial_step_size=2.0)
+            k.set_model(model)
+            ms = {"x": jnp.float32(2.9)}
+            n_nan = 0
+            for i in range(1, 8):
+                key = jax.random.PRNGKey(100 + i)
+                st = k.init_state(key, ms)
+                o = k.transition(key, st, ms, ep)
+                code, p_, mv = int(o.info.error_code), float(o.info.acceptance_prob), bool(o.info.position_moved)
+                x_new = float(o.model_state["x"])
+                n_nan += code == 90
+                x0 = float(ms["x"])
+                ok = (code in (0, 90)) and 0.0 <= p_ <= 1.0 and mv == (x_new != x0) and (code != 90 or (p_ == 0.0 and not mv)) and not (x_new > 3.0)
+                col.add(None if ok else {"sig": "native::kernel::kernel_reports_mh_step", "what": f"{kind}: code={code} acceptance_prob={p_} moved={mv} new x={x_new}",
+                                         "input": {"kernel": kind, "epoch": etype.name, "key": 100 + i}})
+
+
 def bounded(tier, seed):
     ks, us = keys_pool()
     col = util.Collector()
+    try:
+        kernel_cases(col)
+    except Exception as e:
+        col.add({"sig": f"native::kernel::exception::{type(e).__name__}", "what": str(e)[:300], "input": {}})
     if us[0] != 0.0:
         col.add({"sig": "native::infrastructure::zero_key", "what": f"PRNGKey({ZERO_KEY_SEED}) no longer draws 0.0 (got {us[0]})", "input": {}})
     grid = GRID if tier != "quick" else [g for g in GRID if g not in (-3.0e38, 1e-45, 88.0, 3.0e38, -1e-30)]
@@ -99,7 +154,9 @@ def bounded(tier, seed):
         "distinct_nontrivial": len(distinct),
         "rule": (f"BOUNDED: real mh_step (jit+vmap) on the full product of {len(grid)} boundary values (-inf..inf, +-0, subnormal, NaN) for "
                  f"current/proposed log-prob and correction x {len(ks) if tier != 'quick' else 3} PRNG keys incl. PRNGKey({ZERO_KEY_SEED}) whose uniform draw is exactly 0.0, "
-                 f"plus {extra} seeded random triples (seed={seed}); a case is distinct by its (cur, prop, corr, key) tuple."),
+                 f"plus {extra} seeded random triples (seed={seed}); a case is distinct by its (cur, prop, corr, key) tuple. Kernel level: MHKernel with log-corrections "
+                 "NaN / 0 / -0.5 / -inf (eager and jit, posterior and adaptation epoch), RW and IWLS kernels on a target that is NaN beyond a threshold: code, probability, moved flag "
+                 "and returned state must be what mh_step prescribes."),
         "samples": [{"current": "-inf", "proposed": "0.0", "correction": "nan", "key": ZERO_KEY_SEED},
                     {"current": repr(cases[-1][0]), "proposed": repr(cases[-1][1]), "correction": repr(cases[-1][2]), "key_index": cases[-1][3]}],
         "exhaustive": False,
@@ -114,6 +171,15 @@ def _f(d):
 
 
 def replay(unit_id, obligation, model):
+    if unit_id.startswith("C05.kernel_passthrough"):
+        col = util.Collector()
+        corr = model.get("user_log_correction")
+        try:
+            cs = (float("nan"), 0.0, -0.5, float("-inf")) if corr is None else (_f(corr), float("nan"))
+        except (TypeError, ValueError):
+            cs = (float("nan"),)
+        kernel_cases(col, cs)
+        return col.violations[0] if col.violations else None
     if unit_id != "C05.mh_step":
         return None
     try:
